@@ -32,7 +32,7 @@ def weighted(pairs):
     return pick()
 
 
-def op_strategy(resets=True, gens=True, burn=False, custom=False, queries=False):
+def op_strategy(resets=True, gens=True, burn=False, custom=False, queries=False, reset_weight=1):
     prog = st.tuples(st.just("p"), BIG, SIDE, KS)
     near = st.tuples(st.just("n"), st.integers(0, 8), BIG, SIDE, KS)
     flat = st.tuples(st.just("f"), BIG, SIDE, KS)
@@ -44,12 +44,13 @@ def op_strategy(resets=True, gens=True, burn=False, custom=False, queries=False)
     if queries:
         alts.append((3, st.tuples(st.just("v"), st.integers(0, 59))))
         alts.append((4, st.tuples(st.just("s"), st.integers(0, 23), BIG, SIDE, KS)))
+        alts.append((1, st.tuples(st.just("c"), st.integers(0, 9))))
     if custom:
         alts.append((4, st.tuples(st.just("q"), st.integers(0, 2), BIG, st.integers(0, 139), SIDE, KS)))
     if burn:
         alts.append((1, st.tuples(st.just("b"), BIG)))
     if resets:
-        alts.append((1, st.just(("x",))))
+        alts.append((reset_weight, st.just(("x",))))
     if gens:
         alts.append((5, st.tuples(st.just("g"), st.integers(0, 23), BIG, SIDE, KS)))
     return weighted(alts)
@@ -64,8 +65,8 @@ def source_strategy(tier, doc_kw=None, weights=(14, 3, 3), gen_max_hosts=None):
     pool = small * 3 + names if tier == "thorough" else small * 4 + names
     s = st.builds(lambda n: {"kind": "shipped", "name": n}, st.sampled_from(pool))
     mh = gen_max_hosts or (40 if tier == "thorough" else 20)
-    g = st.builds(lambda p: {"kind": "gen", "params": p},
-                  sources.gen_params(max_hosts=mh, max_services=5))
+    g = st.builds(lambda p, r: ({"kind": "gen", "params": p, "reuse": True} if r == 0 else {"kind": "gen", "params": p}),
+                  sources.gen_params(max_hosts=mh, max_services=5), st.integers(0, 5))
     big = st.builds(lambda p: {"kind": "gen", "params": p}, sources.gen_params_large())
     rich = st.builds(lambda p: {"kind": "gen", "params": p}, sources.gen_params_many_features())
     extra = max(1, sum(weights) // 5)
@@ -77,13 +78,13 @@ MODES = st.fixed_dictionaries({
 
 
 def case_strategy(tier, doc_kw=None, weights=(14, 3, 3), min_ops=12, max_ops=None,
-                  modes=None, resets=True, gens=True, burn=False, custom=False, queries=False):
+                  modes=None, resets=True, gens=True, burn=False, custom=False, queries=False, reset_weight=1):
     max_ops = max_ops or (150 if tier == "thorough" else 60)
     return st.fixed_dictionaries({
         "source": source_strategy(tier, doc_kw, weights),
-        "ops": st.lists(op_strategy(resets, gens, burn, custom, queries), min_size=min_ops, max_size=max_ops),
+        "ops": st.lists(op_strategy(resets, gens, burn, custom, queries, reset_weight), min_size=min_ops, max_size=max_ops),
         "modes": modes if modes is not None else st.just({}),
-        "foreign": st.sampled_from([None, None, None, "small", "tiny-small", "medium"]),
+        "foreign": st.sampled_from([None, None, None, "small", "tiny-small", "medium", "sibling", "sibling"]),
     })
 
 
@@ -212,6 +213,9 @@ class CaseRunner:
             if record:
                 rep.count("queries", getattr(h, "queries", 0))
                 rep.count("cross-state-probes", getattr(h, "cross_probes", 0))
+                rep.count("continued-on-a-copy", getattr(h, "copies", 0))
+                if getattr(h, "copy_failed", 0):
+                    rep.count("copy-not-supported", h.copy_failed)
                 rep.count("stale-probes-after-reset", getattr(h, "stale_probes", 0))
                 if getattr(h, "query_errors", 0):
                     rep.count("query-raised(not owned)", h.query_errors)
